@@ -235,6 +235,18 @@ func addrKindFor(kind string, ttl int) string {
 	return kind
 }
 
+// unreachFromTarget: the target (or a box answering with its address) rejects an echo request or a TCP segment with
+// a destination unreachable. No property says whether that shows as a hop (the drivers ignore it); it is never
+// the form that proves arrival for these protocols, so it must not mark the destination (C04).
+func (n *NetWorld) unreachFromTarget(p *Probe, h HopSpec, kind string, from netip.Addr, tag Tag) ([]byte, Tag) {
+	f := h.Form
+	f.Kind = kind
+	tag.Class, tag.IsDestForm, tag.Field = "dontcare", false, "unreach-for-"+p.Kind
+	tag.Form = "unreach-from-target:" + kind
+	tag.Responder = from.String()
+	return icmpError(from, p.IP.Src, f, quoteOf(p.Raw, f)), tag
+}
+
 // destReply is the target's own answer to a probe that reached it.
 func (n *NetWorld) destReply(fs *flowSt, p *Probe, h HopSpec) ([]byte, Tag) {
 	target, local := p.IP.Dst, p.IP.Src
@@ -260,6 +272,8 @@ func (n *NetWorld) destReply(fs *flowSt, p *Probe, h HopSpec) ([]byte, Tag) {
 				tag.Class, tag.MustReject, tag.Field = "perturbed", true, "echo-reply-foreign-source"
 			}
 			return echoReply(p, from, p.ICMP.EchoID(), p.ICMP.EchoSeq()), tag
+		case "unreach-host", "unreach-admin", "unreach-port":
+			return n.unreachFromTarget(p, h, kind, from, tag)
 		default: // the target itself answers with time exceeded: a hop, not a proof of arrival for ICMP
 			tag.Form = "ttl-exceeded-from-target"
 			tag.Responder = from.String()
@@ -282,6 +296,8 @@ func (n *NetWorld) destReply(fs *flowSt, p *Probe, h HopSpec) ([]byte, Tag) {
 	case "tcp-syn":
 		switch kind {
 		case "synack", "rst", "rstack", "ttl-exceeded":
+		case "unreach-host", "unreach-admin", "unreach-port":
+			return n.unreachFromTarget(p, h, kind, from, tag)
 		default:
 			// a kind meant for another probe type (a request whose runs are SACK and whose e2e probes are SYN):
 			// the port is listening, a SYN gets a SYN-ACK
@@ -327,6 +343,8 @@ func (n *NetWorld) destReply(fs *flowSt, p *Probe, h HopSpec) ([]byte, Tag) {
 		tag.Form = kind
 		tag.Responder = from.String()
 		switch kind {
+		case "unreach-host", "unreach-admin", "unreach-port":
+			return n.unreachFromTarget(p, h, kind, from, tag)
 		case "ttl-exceeded":
 			// a time-exceeded sent by the target itself proves arrival for SACK
 			tag.IsDestForm = tag.FromTarget
